@@ -95,9 +95,9 @@ Sweep ==
      \* same trajectory, same stopping point: up to the reference's convergence iteration a sweep reports
      \* convergence exactly when the uninterrupted run did (beyond it - a solve() call on an already
      \* converged solver sweeps once more - only the trajectory is compared)
-     ELSE IF T.refconv > 0 /\ Ev.iter < T.refconv /\ Ev.conv
+     ELSE IF T.refconv > 0 /\ Ev.convknown /\ Ev.iter < T.refconv /\ Ev.conv
        THEN Reject("C09", "sweep: convergence reported earlier than in the uninterrupted run")
-     ELSE IF T.refconv > 0 /\ Ev.iter = T.refconv /\ ~Ev.conv
+     ELSE IF T.refconv > 0 /\ Ev.convknown /\ Ev.iter = T.refconv /\ ~Ev.conv
        THEN Reject("C09", "sweep: no convergence at the iteration where the uninterrupted run converged")
      ELSE /\ iter' = iter + 1
           /\ expectSave' = (freq > 0 /\ ~Ev.conv /\ (iter + 1) % freq = 0)
